@@ -1,6 +1,7 @@
 package main
 
 import (
+	"fmt"
 	"go/ast"
 	"go/constant"
 	"go/token"
@@ -660,6 +661,51 @@ func ruleParse(c *Ctx) {
 		}
 	}
 
+	// PARSE-7: built-in infix rules use the power the binding-power table documents for their token
+	{
+		comments := map[string]string{} // BP constant name -> trailing comment
+		for _, f := range c.Mod["parser/oper"].Syntax {
+			for _, d := range f.Decls {
+				gd, ok := d.(*ast.GenDecl)
+				if !ok || gd.Tok != token.CONST {
+					continue
+				}
+				for _, sp := range gd.Specs {
+					vs := sp.(*ast.ValueSpec)
+					if vs.Comment != nil {
+						for _, n := range vs.Names {
+							comments[n.Name] = vs.Comment.Text()
+						}
+					}
+				}
+			}
+		}
+		lexTbl := map[string]string{} // token const name -> BP const name in lexer.builtInOpers
+		if cl, ok := c.VarInit("parser/lexer", "builtInOpers").(*ast.CompositeLit); ok {
+			for _, e := range cl.Elts {
+				if el, ok := e.(*ast.CompositeLit); ok && len(el.Elts) >= 2 {
+					if k, b := c.objOf(el.Elts[0]), c.objOf(el.Elts[1]); k != nil && b != nil {
+						lexTbl[k.Name()] = b.Name()
+					}
+				}
+			}
+		}
+		for _, call := range c.callsTo(ng.Body, "parser.grammar.infixRight", "parser.grammar.infixLeft") {
+			k, b := c.objOf(call.Args[0]), c.objOf(call.Args[1])
+			if k == nil || b == nil {
+				continue
+			}
+			text, _ := c.constStr(call.Args[0])
+			doc := comments[b.Name()]
+			okDoc := text != "" && strings.Contains(doc, text)
+			okLex := true
+			if lb, ok := lexTbl[k.Name()]; ok && lb != b.Name() {
+				okLex = false
+			}
+			c.R.Check(okDoc && okLex, "parser.newGrammar", "PARSE-7 "+k.Name()+" registered with the power documented for `"+text+"`", call.Pos(),
+				b.Name()+" is documented as `"+strings.TrimSpace(doc)+"`", "`"+text+"` is registered with "+b.Name()+" (documented for `"+strings.TrimSpace(doc)+"`)"+map[bool]string{true: "", false: " and the lexer's built-in table uses " + lexTbl[k.Name()]}[okLex]+": a user operator with a power between the two binds differently around this form")
+		}
+	}
 	// PARSE-6
 	if opLoop != nil {
 		for _, k := range []string{"parser/token.QUESTION", "parser/token.DOT", "parser/token.LEFT_PAREN", "parser/token.LEFT_BRACKET"} {
@@ -1014,6 +1060,20 @@ func ruleDesugar(c *Ctx) {
 		}
 		_ = annotated
 	}
+	// DS-5: a sugar case has exactly one rewrite (no special-cased fast paths with their own operand order)
+	for _, cn := range []string{"parser/ast.UnaryExpr", "parser/ast.BinaryExpr", "parser/ast.TenaryExpr", "parser/ast.GroupExpr"} {
+		cc := cases[cn]
+		if cc == nil {
+			continue
+		}
+		n := 0
+		for _, r := range returnsOf(&ast.BlockStmt{List: cc.Body}) {
+			if len(r.Results) == 1 && src(r.Results[0]) != "nil" {
+				n++
+			}
+		}
+		c.R.Check(n == 1, name, "DS-5 "+cn+" has a single rewrite", cc.Pos(), "one return: the form means exactly the one call it stands for", fmt.Sprintf("%d different rewrites of this sugar form: a special-cased rewrite can evaluate operands in another order or unconditionally (c ? t : true is not t || !c)", n))
+	}
 	// DS-3: no store into the input anywhere in package trans
 	writes := 0
 	for _, f := range c.Mod["trans"].Syntax {
@@ -1176,6 +1236,17 @@ func ruleDesugar(c *Ctx) {
 		c.R.Check(len(ini) == 1 && loop != nil && g.dominates(ini[0], loop), "yae.Expr.CompileExpr", "DS-6 translators initialised before use", ce.Pos(), "makeSureInit first", "the translator list is used before initialisation")
 	} else {
 		c.R.Anchor("yae.Expr.CompileExpr")
+	}
+	if msi := c.FuncDecl("yae", "Expr.makeSureInit"); msi != nil {
+		top := false
+		for _, st := range msi.Body.List {
+			if es, ok := st.(*ast.ExprStmt); ok {
+				if ce, ok := es.X.(*ast.CallExpr); ok && c.calleeName(ce) == "yae.Expr.initTrans" {
+					top = true
+				}
+			}
+		}
+		c.R.Check(top, "yae.Expr.makeSureInit", "DS-6 the desugarer is installed unconditionally", msi.Pos(), "initTrans() is a top-level statement of makeSureInit", "the desugarer is only installed under a configuration flag: an engine without built-ins type-checks and compiles sugar nodes (unreachable branch)")
 	}
 	if it := c.FuncDecl("yae", "Expr.initTrans"); it != nil {
 		okT := false
